@@ -133,7 +133,7 @@ PROPS = {
     "C14": {
         "level": "proof",
         "lean_modules": ["RaftVerif.Properties.C14", "RaftVerif.Properties.C12", "RaftVerif.Properties.C13"],
-        "engines": [E4("crash", 40, 400), E4("snap", 20, 200), E2_LOG, E2_SS],
+        "engines": [E4("crash", 40, 400), E4("snap", 20, 200), E4D("S10-local-snapshot-finishes-after-a-received-one,stop-during-apply-then-restart,S9-snapshot-overlaps-apply"), E2_LOG, E2_SS],
         "explanation": "PARTIAL proof. Cluster level (crash = a step of the replication-layer model: log, term and vote persist as C12/C13 give them at every crash point, role and commit index are lost): C14_safety_across_crash - for a crash of any node in any reachable state and anything afterwards, what any node had applied before and what any node applies later are comparable; C14_restarted_node_can_catch_up - after the crash there is a continuation at whose end every voter, the restarted one included, holds the leader's log with the same commit index, and everything committed before the crash (in particular what the crashed node had applied) is a prefix of it. Machine-checked: what each storage returns after a crash at any point (C12 log: every byte prefix of an in-flight append; C13 term/vote file and snapshot directory: every call boundary and byte); restore() over such an image yields a well-formed node whenever the log base does not exceed the newest visible snapshot label (the code makes a snapshot visible before it trims the log); on well-formed nodes the vote handler (unconditionally), the replication handler, the commit loop and the apply loop never reach a logger.Fatal path; crash steps are part of the models of C02/C08, so one vote per term and election safety hold across restarts. NOT proved: cluster-level safety of applied sequences across restarts (C01). Search and tie: " + CLUSTER_NOTE + "; crash points are armed inside the nodes so that they die between two storage writes of one critical section (before log append / truncate / compact / discard, before SetState, before snapshot create / write / close), the image is restarted with the real constructors and all oracles continue; E2 restarts every byte-level image of every storage.",
         "assumptions": ["process-crash model (completed syscalls persist; a write may be cut at any byte: E2; between storage operations: E4)",
                         "a process abort (logger.Fatal = os.Exit) inside a walk is reported as a C14 violation with signature process-abort"],
